@@ -33,6 +33,8 @@ Record block_case := {
   kc_vals : list val; kc_ballots : list ballot; kc_bonded : Z;   (* staking graph and votes at the end of the block *)
   kc_gh_voters : list (list (Z * Z) * list Z);                  (* ghosts as in tally_case, end of the block *)
   kc_gh_vals : list (list (Z * Z) * Z);
+  kc_created : list epoch;      (* ghost kept by the harness: the epochs seen to appear in the store, in
+                                   creation order (the most recent ones), as stored when they appeared *)
   kc_obs : res (list Z * istate) }.
 Inductive c17_case :=
 | CVote (c : vote_case) | CTally (c : tally_case) | CBegin (c : begin_case) | CBlock (c : block_case).
@@ -210,6 +212,21 @@ Definition epochs_shape (es : list epoch) : bool :=
   | [e1; e2] => (e_id e2 =? e_id e1 + 1) && (e_end e1 <=? e_start e2)
   | _ => false
   end.
+Fixpoint last2 {A} (l : list A) : list A :=
+  match l with
+  | _ :: ((_ :: _ :: _) as tl) => last2 tl
+  | _ => l
+  end.
+(* the stored epochs are exactly the two most recent created ones (ghost list), each with its
+   gauge records, and nothing else *)
+Definition mon_epoch_store (c : block_case) : bool :=
+  match kc_obs c with
+  | Ok (_, st') =>
+      let keep := last2 (kc_created c) in
+      list_eqb epoch_eqb (s_epochs st') keep &&
+      list_eqb gauge_eqb (s_gauges st') (flat_map e_gauges keep)
+  | _ => true
+  end.
 Definition mon_epochs (c : block_case) : bool :=
   match kc_obs c with
   | Ok (_, st') =>
@@ -220,7 +237,7 @@ Definition mon_epochs (c : block_case) : bool :=
       | _, None => match pre with [] => true | _ => false end
       | None, Some e => (e_id e =? 1) && (e_start e =? kc_height c)
       | Some a, Some e =>
-          epoch_eqb a e    (* nothing created *)
+          (epoch_eqb a e && list_eqb epoch_eqb pre post)   (* nothing created: nothing may change *)
           || ((e_id e =? e_id a + 1) && (e_start e =? kc_height c) && (e_end a <=? kc_height c) &&
               (e_end e =? kc_height c + kc_epoch_blocks c) &&
               (* the previous last epoch is the other one kept *)
@@ -264,7 +281,7 @@ Definition c17_check (c : c17_case) : list Z :=
           flag 3 (mon_le_available (kc_balance c) ts) ++
           flag 4 (mon_proportional (kc_balance c) (last_epoch (s_epochs (kc_pre c))) (kc_status c) ts)
       | _ => []
-      end ++ flag 5 (mon_epochs c) ++
+      end ++ flag 5 (mon_epochs c && mon_epoch_store c) ++
       (* the gauges of an epoch created in this block, against the ghosts *)
       match kc_obs c with
       | Ok (_, st') =>
